@@ -173,7 +173,7 @@ func (e *Exec) checkInvariants(lp *Loop, phase string) {
 				e.vc.Oblige("loop", name, "cannot evaluate invariant "+inv.Text+": "+err.Error(), inv.Line, e.g, False, nil).Status = "unknown"
 				continue
 			}
-			e.vc.Oblige("loop", name, "invariant "+inv.Text+" ("+phase+") "+inv.Line, inv.Line, e.g, t, e.root.inputs)
+			e.vc.ObligeAll("loop", name, "invariant "+inv.Text+" ("+phase+") "+inv.Line, inv.Line, e.g, t, e.root.inputs)
 		}
 	}
 	for _, c := range e.loopCands(lp) {
@@ -581,7 +581,9 @@ func (e *Exec) callByContract(ct *Contract, callee *ssa.Function, args []Val, si
 	}
 	pre := e.st
 	preItems := len(e.vc.items)
+	var calleeNows []*Term
 	env := e.callEnv(ct, callee, args, sig, pre, nil)
+	env.calleeNows = &calleeNows
 	// 1. preconditions
 	for k, rq := range ct.Requires {
 		t, err := env.EvalBool(rq.E)
@@ -594,7 +596,7 @@ func (e *Exec) callByContract(ct *Contract, callee *ssa.Function, args []Val, si
 		}
 		if !e.silent {
 			line := e.P.srcLine(instrPos(in))
-			e.vc.Oblige("requires", fmt.Sprintf("%s[%d]@%s", name, k, trunc(line, 50)), "precondition of "+name+": "+rq.Text+" @ "+e.P.posString(instrPos(in)), e.P.posString(instrPos(in)), e.g, t, e.root.inputs)
+			e.vc.ObligeAll("requires", fmt.Sprintf("%s[%d]@%s", name, k, trunc(line, 50)), "precondition of "+name+": "+rq.Text+" @ "+e.P.posString(instrPos(in)), e.P.posString(instrPos(in)), e.g, t, e.root.inputs)
 		}
 		e.vc.Assume(e.g, t)
 	}
@@ -626,6 +628,7 @@ func (e *Exec) callByContract(ct *Contract, callee *ssa.Function, args []Val, si
 	// 3. results
 	vals := make([]Val, sig.Results().Len())
 	post := e.callEnv(ct, callee, args, sig, e.st, pre)
+	post.calleeNows = &calleeNows
 	for i := range vals {
 		vals[i] = e.havocVal("r."+trunc(name, 20), sig.Results().At(i).Type(), nil)
 		if i < len(ct.Results) {
@@ -858,21 +861,55 @@ func (e *Exec) finish() {
 			trustedEns[idx] = reason
 		}
 	}
+	mergedG, mergedSt := e.g, e.st
 	for k, en := range e.con.Ensures {
 		if reason, ok := trustedEns[k]; ok {
 			e.vc.Trusted[fmt.Sprintf("postcondition %d of %s assumed, not proved: %s (%s)", k, e.con.Fn, en.Text, reason)] = true
 			continue
 		}
-		t, err := env.EvalBool(en.E)
 		name := fmt.Sprintf("[%d]", k)
-		if err != nil {
-			o := e.vc.Oblige("ensures", name, "cannot evaluate postcondition "+en.Text+": "+err.Error(), en.Line, e.g, False, nil)
+		// evaluated at every return site in that site's own (unmerged) state: the goal is the conjunction of
+		// guard_i => post_i, so results that are literally false / nil at a site make its conjunct trivial
+		var conj []*Term
+		var evalErr error
+		for _, r := range e.rets {
+			e.g, e.st = r.g, r.st
+			renv := e.paramEnv(r.st, e.st0)
+			for i, n := range e.con.Results {
+				if i < len(r.vals) && r.vals[i] != nil {
+					renv.vars[n] = CV{V: r.vals[i], T: e.fn.Signature.Results().At(i).Type()}
+				}
+			}
+			t, err := renv.EvalBool(en.E)
+			if err != nil {
+				evalErr = err
+				break
+			}
+			conj = append(conj, Implies(r.g, t))
+		}
+		e.g, e.st = mergedG, mergedSt
+		if evalErr != nil {
+			o := e.vc.Oblige("ensures", name, "cannot evaluate postcondition "+en.Text+": "+evalErr.Error(), en.Line, e.g, False, nil)
 			o.Status = "unknown"
-			o.Raw = err.Error()
+			o.Raw = evalErr.Error()
 			continue
 		}
-		e.vc.Oblige("ensures", name, "postcondition "+en.Text+" ("+en.Line+")", en.Line, e.g, t, e.root.inputs)
+		var nontriv []*Term
+		for _, c := range conj {
+			if !c.IsTrue() {
+				nontriv = append(nontriv, c)
+			}
+		}
+		if len(nontriv) <= 1 {
+			e.vc.ObligeAll("ensures", name, "postcondition "+en.Text+" ("+en.Line+")", en.Line, True, And(conj...), e.root.inputs)
+		} else {
+			// one obligation per return site where the postcondition is not trivially true
+			for i, c := range nontriv {
+				e.vc.ObligeAll("ensures", fmt.Sprintf("%s.site%d", name, i+1), "postcondition "+en.Text+" ("+en.Line+") at return site "+fmt.Sprint(i+1), en.Line, True, c, e.root.inputs)
+			}
+		}
 	}
+	_ = env
 	if e.con.HasFrame() {
 		if tf, ok := e.con.Raw["trusted_frame"]; ok {
 			e.vc.Trusted["frame of "+e.con.Fn+" assumed, not proved ("+strings.Join(tf, "; ")+")"] = true
